@@ -23,6 +23,7 @@ def ref_apply(state, msg):
     if n == 'UserJoinedRoom': r['users'].add(u)
     elif n == 'UserLeftRoom': r['users'].discard(u)
     elif n == 'LeaveRoom': r['users'] = set(); r['joined'] = False
+    elif n == 'JoinRoom': r['users'] = set(msg.users); r['joined'] = True; r['operators'] = set(msg.operators or [])      # lists replace
     elif n == 'PrivateRoomGrantMembership': r['members'].add(u)
     elif n == 'PrivateRoomMembershipGranted': r['members'].add(ME)
     elif n == 'PrivateRoomRevokeMembership': r['members'].discard(u); r['operators'].discard(u)
@@ -47,6 +48,7 @@ def alphabet(room):
         M.PrivateRoomGrantOperator.Response(room, 'bob'), M.PrivateRoomRevokeOperator.Response(room, 'bob'),
         M.RoomTickerAdded.Response(room, 'bob', 'hi'), M.RoomTickerRemoved.Response(room, 'bob'),
         M.RoomTickerAdded.Response(room, 'bob', 'a newer ticker'),
+        M.JoinRoom.Response(room, [ME, 'eve'], [2, 2], [STATS, STATS], [1, 1], ['NL', 'NL']),
     ]
 
 
